@@ -2,6 +2,7 @@ package main
 
 import (
 	"fmt"
+	"go/token"
 	"go/types"
 	"sort"
 	"strings"
@@ -469,6 +470,203 @@ var ruleScopeS4 = &Rule{
 		}
 		c.Stats["scope_creation_sites"] = n
 		obs = append(obs, floor("SCOPE/S4-tree-registration", "CreateScopeInfo call sites", n, 7))
+		return obs
+	},
+}
+
+// ---------------------------------------------------------------------------------------------
+// S5: lookups in the enclosing blocks walk the Parent chain, own scope first
+
+var ruleScopeS5 = &Rule{
+	Name:    "SCOPE/S5-lexical-lookup",
+	NeedSSA: true,
+	Text:    "every method of ScopeInfo that continues its search in the enclosing block (a self-recursive call on its own receiver's Parent) does so only on Parent (never on a sibling or child scope), passes its remaining parameters on unchanged, and — when it searches a table of its receiver (LocVarMap, NotVarMap, MidNotVarMap) — consults that table before it recurses: the nearest enclosing declaration wins, sibling blocks are never searched (lexical scoping of definition, completion candidates and the walker's own name resolution)",
+	Run: func(c *Ctx) []Ob {
+		var obs []Ob
+		commonPkgP := modPath + "/langserver/check/common"
+		n := 0
+		for _, f := range c.ModFns() {
+			if f.Signature.Recv() == nil || len(f.Params) == 0 {
+				continue
+			}
+			if p, nm := namedPkgName(f.Signature.Recv().Type()); p != commonPkgP || nm != "ScopeInfo" {
+				continue
+			}
+			recv := f.Params[0]
+			var recCalls []*ssa.Call
+			for _, b := range f.Blocks {
+				for _, ins := range b.Instrs {
+					if call, ok := ins.(*ssa.Call); ok && call.Call.StaticCallee() == f {
+						recCalls = append(recCalls, call)
+					}
+				}
+			}
+			isParent := func(v ssa.Value) bool {
+				ld, ok := canon(v).(*ssa.UnOp)
+				if !ok {
+					return false
+				}
+				fa, ok := ld.X.(*ssa.FieldAddr)
+				return ok && canon(fa.X) == ssa.Value(recv) && fieldOf(fa).Name() == "Parent"
+			}
+			up := false
+			for _, rc := range recCalls {
+				if isParent(rc.Call.Args[0]) {
+					up = true
+				}
+			}
+			if !up {
+				continue // not an upward lookup (sub-tree traversals are not lookups)
+			}
+			n++
+			// tables of the receiver searched by this method
+			isTableRead := func(ins ssa.Instruction) bool {
+				var m ssa.Value
+				switch x := ins.(type) {
+				case *ssa.Lookup:
+					m = x.X
+				case *ssa.Range:
+					m = x.X
+				default:
+					return false
+				}
+				ld, ok := m.(*ssa.UnOp)
+				if !ok {
+					return false
+				}
+				fa, ok := ld.X.(*ssa.FieldAddr)
+				if !ok || canon(fa.X) != ssa.Value(recv) {
+					return false
+				}
+				_, isMap := types.Unalias(fieldOf(fa).Type()).Underlying().(*types.Map)
+				return isMap
+			}
+			searches := false
+			for _, b := range f.Blocks {
+				for _, ins := range b.Instrs {
+					if isTableRead(ins) {
+						searches = true
+					}
+				}
+			}
+			for i, rc := range recCalls {
+				key := fmt.Sprintf("SCOPE/S5:%s#%d", f.Name(), i+1)
+				why := ""
+				if !isParent(rc.Call.Args[0]) {
+					why = "a method that searches the enclosing blocks also recurses into " + describeValue(rc.Call.Args[0]) + ", which is not its receiver's Parent"
+				}
+				for j := 1; j < len(rc.Call.Args) && why == ""; j++ {
+					if canon(rc.Call.Args[j]) != ssa.Value(f.Params[j]) {
+						why = fmt.Sprintf("parameter %s is not passed on unchanged to the enclosing scope", f.Params[j].Name())
+					}
+				}
+				if why == "" && searches {
+					target := rc
+					if bad := mustPrecede(f, isTableRead, func(ins ssa.Instruction) bool { return ins == ssa.Instruction(target) }); len(bad) > 0 {
+						why = "the enclosing scope is consulted on a path that has not searched the receiver's own table first (an outer declaration would shadow an inner one)"
+					}
+				}
+				if why == "" {
+					obs = append(obs, Ob{Key: key, Site: c.Pos(rc.Pos()), Verdict: OK})
+				} else {
+					obs = append(obs, Ob{Key: key, Site: c.Pos(rc.Pos()), Verdict: VIOLATION, Note: f.Name() + ": " + why})
+				}
+			}
+		}
+		c.Stats["scope_lookup_methods"] = n
+		obs = append(obs, floor("SCOPE/S5-lexical-lookup", "upward-recursive lookup methods of ScopeInfo", n, 4))
+		return obs
+	},
+}
+
+// ---------------------------------------------------------------------------------------------
+// COMPL: local completion candidates are position-filtered
+
+var ruleComplDeclBefore = &Rule{
+	Name:    "COMPL/declared-before-cursor",
+	NeedSSA: true,
+	Text:    "in the method of ScopeInfo that offers the locals of a scope chain as completion candidates (it ranges over LocVarMap and passes an element of VarVec to a CompleteCache insert method), every such insert is dominated by a comparison between the candidate's own Loc.StartLine and the cursor location parameter's StartLine: a local declared after the cursor is never offered. Together with SCOPE/S5 (only enclosing blocks are searched) this is the structural half of `no local that is declared later or in a block that does not enclose the cursor`",
+	Run: func(c *Ctx) []Ob {
+		var obs []Ob
+		commonPkgP := modPath + "/langserver/check/common"
+		n := 0
+		for _, f := range c.ModFns() {
+			if f.Signature.Recv() == nil || len(f.Params) == 0 {
+				continue
+			}
+			if p, nm := namedPkgName(f.Signature.Recv().Type()); p != commonPkgP || nm != "ScopeInfo" {
+				continue
+			}
+			// cursor parameter: a lexer.Location parameter
+			var locParam *ssa.Parameter
+			for _, p := range f.Params {
+				if pp, nm := namedPkgName(p.Type()); pp == lexerPkgPath && nm == "Location" {
+					locParam = p
+				}
+			}
+			if locParam == nil {
+				continue
+			}
+			cnt := 0
+			for _, b := range f.Blocks {
+				for _, ins := range b.Instrs {
+					call, ok := ins.(*ssa.Call)
+					if !ok {
+						continue
+					}
+					sc := call.Call.StaticCallee()
+					if sc == nil || sc.Signature.Recv() == nil || namedName(sc.Signature.Recv().Type()) != "CompleteCache" || !strings.HasPrefix(sc.Name(), "Insert") {
+						continue
+					}
+					// the candidate: a *VarInfo argument
+					var cand ssa.Value
+					for _, a := range call.Call.Args[1:] {
+						if namedName(a.Type()) == "VarInfo" {
+							cand = a
+						}
+					}
+					if cand == nil {
+						continue
+					}
+					n++
+					cnt++
+					key := fmt.Sprintf("COMPL:%s#%d", f.Name(), cnt)
+					pc := apath(cand, 0)
+					pl := strings.TrimPrefix(apath(locParam, 0), "*")
+					okG := false
+					for d := b; d != nil && !okG; d = d.Idom() {
+						iff, ok := d.Instrs[len(d.Instrs)-1].(*ssa.If)
+						if !ok || d == b {
+							continue
+						}
+						bo, ok := iff.Cond.(*ssa.BinOp)
+						if !ok {
+							continue
+						}
+						switch bo.Op {
+						case token.LSS, token.GTR, token.LEQ, token.GEQ:
+						default:
+							continue
+						}
+						x, y := apath(bo.X, 0), apath(bo.Y, 0)
+						isCand := func(s string) bool {
+							return strings.Contains(s, strings.TrimPrefix(pc, "*")) && strings.HasSuffix(s, ".Loc.StartLine")
+						}
+						isCur := func(s string) bool { return strings.Contains(s, pl) && strings.HasSuffix(s, ".StartLine") && !strings.Contains(s, ".Loc.") }
+						if (isCand(x) && isCur(y)) || (isCand(y) && isCur(x)) {
+							okG = true
+						}
+					}
+					if okG {
+						obs = append(obs, Ob{Key: key, Site: c.Pos(call.Pos()), Verdict: OK})
+					} else {
+						obs = append(obs, Ob{Key: key, Site: c.Pos(call.Pos()), Verdict: VIOLATION,
+							Note: "a local is offered as completion candidate without a dominating comparison of its declaration line with the cursor line: locals declared after the cursor are offered"})
+					}
+				}
+			}
+		}
+		obs = append(obs, floor("COMPL/declared-before-cursor", "local completion inserts with a cursor parameter", n, 1))
 		return obs
 	},
 }
